@@ -20,6 +20,8 @@ ASSUME = [
     "and change events for options with pending local changes are part of the exploration",
     "the order of different options inside one SETCONF is not compared, the order of one option's values is",
     "comma-list options (RouterList etc.) are outside the exploration: Tor stores them as one comma-joined value, not as repeated lines",
+    "in every fifth C11 execution another controller changes an option while our bootstrap is still reading the configuration (the "
+    "GETCONF answer carries the old value, the announcement the new one): the attached view must show the new one",
 ]
 
 
@@ -153,6 +155,8 @@ def run(pid, tier, seed):
     traces, seen = [], set()
     for i, s in enumerate(scripts):
         pick = dict(s1=i % 3, s2=(i // 3) % 2, l1=(i // 6) % 2, l2=0, offline=(i % 4 == 3))
+        if pid == "C11" and i % 5 == 2:
+            pick["midboot"] = ["s2", "l1", "s1"][(i // 5) % 3]       # a change by another controller during our bootstrap
         traces.append(cfgh.replay(s, pick))
         acts = [e["a"] for e in s]
         if ("SaveSend" in acts and ("ListOp" in acts or "Assign" in acts)) if pid == "C10" else ("Deliver" in acts):
